@@ -47,6 +47,7 @@ func checkC07(r *Report, p *Program) {
 	commaOkValuesUsedWhenOk(r, p, "R07.19", 20)
 	freshDecodeTargets(r, p, "R07.20")
 	hookAnswerFrozenAfterGate(r, p, "R07.21")
+	noOpTestOperands(r, p, "R07.22")
 }
 
 // r07_9: which fields are revisioned. The default (all of spec) applies whenever the
